@@ -3,7 +3,7 @@
 // therefore possible only where the flags alone decide the verdict.  Registered: dd_equal (the equality of
 // discrete_domain): an operand whose witness says "not top" is rebuilt as the EMPTY set (the null tree the
 // counterexample uses), a top operand as discrete_domain::top(); the postcondition is the contract's:
-// equal iff both top, or neither top and the sets are equal.
+// equal iff both top, or neither top and the sets are equal.  dd_union / dd_inter / dd_union_with likewise (flags only).
 #include <crab/domains/discrete_domains.hpp>
 #include "replay.h"
 struct K : public crab::indexable {
@@ -28,5 +28,28 @@ REPLAY(dd_leq) {
   bool spec = b.is_top() || !a.is_top();      // non-top operands are rebuilt as the empty set
   printf("  self <= other returns %d, expected %d\n", r, spec);
   return r == spec;
+}
+// union / intersection: with operands rebuilt from the flags (top, or the empty set) the result must be top exactly when
+// either / both operands are, and the empty set otherwise
+REPLAY(dd_union) {
+  DD a = mk(wit, "a"), b = mk(wit, "b");
+  DD r = a | b;
+  bool spec_top = a.is_top() || b.is_top();
+  printf("  self | other: is_top=%d is_bottom=%d, expected is_top=%d is_bottom=%d\n", r.is_top(), r.is_bottom(), spec_top, !spec_top);
+  return r.is_top() == spec_top && r.is_bottom() == !spec_top;
+}
+REPLAY(dd_inter) {
+  DD a = mk(wit, "a"), b = mk(wit, "b");
+  DD r = a & b;
+  bool spec_top = a.is_top() && b.is_top();
+  printf("  self & other: is_top=%d is_bottom=%d, expected is_top=%d is_bottom=%d\n", r.is_top(), r.is_bottom(), spec_top, !spec_top);
+  return r.is_top() == spec_top && r.is_bottom() == !spec_top;
+}
+REPLAY(dd_union_with) {
+  DD a = mk(wit, "a"), b = mk(wit, "b");
+  bool spec_top = a.is_top() || b.is_top();
+  a |= b;
+  printf("  self |= other: is_top=%d is_bottom=%d, expected is_top=%d is_bottom=%d\n", a.is_top(), a.is_bottom(), spec_top, !spec_top);
+  return a.is_top() == spec_top && a.is_bottom() == !spec_top;
 }
 int main(int argc, char **argv) { return replay_main(argc, argv); }
